@@ -20,3 +20,6 @@ def run(ctx):
     ctx.prefetch(cfgs)
     ctx.run_rule("T3t", r_hash.rule_T3_traits, cfgs)
     ctx.run_rule("T3g", r_hash.rule_T3_guts, cfgs + ["portable1"])
+    import r_state
+    ctx.run_rule("S1", r_state.rule_S1, cfgs)       # the trait reset methods forward to Hasher::reset, which must restore everything
+    ctx.run_rule("S2", r_state.rule_S2, cfgs)
